@@ -45,8 +45,15 @@ class RowFn(object):
 
 
 def rand_series(rng, n):
-    kind = rng.integers(6)
-    if kind == 5:     # near ties on the crests: neighbouring top samples that differ by 1e-15 .. 1e-7 relative (not equal)
+    kind = rng.integers(7)
+    if kind == 6:     # crests / troughs whose top samples are one or two ulps apart (later one larger or smaller)
+        x = np.repeat(rng.standard_normal(max(2, n // 3 + 1)), 3)[:n]
+        for j in range(1, len(x)):
+            if x[j] == x[j - 1]:
+                x[j] = np.nextafter(x[j - 1], x[j - 1] + rng.choice([-1.0, 1.0]) * (abs(x[j - 1]) + 1.0))
+                if rng.integers(2):
+                    x[j] = np.nextafter(x[j], x[j] + (x[j] - x[j - 1]) * 1e300)
+    elif kind == 5:     # near ties on the crests: neighbouring top samples that differ by 1e-15 .. 1e-7 relative (not equal)
         x = np.repeat(rng.standard_normal(n), rng.integers(1, 4, size=n))[:n]
         x = x * (1.0 + rng.choice([0.0, 1e-15, 1e-12, 5e-9, 1e-7], size=n) * rng.choice([-1, 1], size=n))
     elif kind == 0:
@@ -78,7 +85,7 @@ def build_traces(path, tier, seed):
         tol = float(rng.choice([0.3, 1.0, 2.0, 2.5, rng.uniform(0.01, 3)]))
         if rng.integers(4) == 0:
             # records in small / large units (nanometre displacements, counts): the results are scale free
-            sc = 10.0 ** rng.choice([rng.uniform(-12, -6), rng.uniform(3, 8)])
+            sc = 10.0 ** rng.choice([rng.uniform(-12, -6), rng.uniform(3, 8), rng.uniform(155, 250)])
             x = x * sc
             tol = tol * sc
         arg = x if tid % 4 else x.tolist()
@@ -92,13 +99,15 @@ def build_traces(path, tier, seed):
             zcf = pc.get_zero_crossings_indices(sobj)
             sw0 = pc.get_switched_peak_indices(sobj) if tid % 2 else pc.get_switched_peak_indices(x)
         else:
-            zcf = pc.get_zero_crossings_array_indices(arg, keep_adj_zeros=False, tol=0.0)
-            sw0 = pc.get_switched_peak_array_indices(arg, tol=0.0)
+            # the flag / tolerance as the scalar types a caller may hand over (python, numpy, int)
+            f_ = [False, np.bool_(False), 0][int(rng.integers(3))]
+            zcf = pc.get_zero_crossings_array_indices(arg, keep_adj_zeros=f_, tol=[0.0, 0, np.float64(0.0)][int(rng.integers(3))])
+            sw0 = pc.get_switched_peak_array_indices(arg, tol=[0.0, 0, np.float64(0.0)][int(rng.integers(3))])
         rec = {"tid": tid, "x": enc_seq(x), "tol": enc(tol),
                "zcf": [int(i) for i in zcf],
-               "zct": [int(i) for i in pc.get_zero_crossings_array_indices(arg, keep_adj_zeros=True)],
+               "zct": [int(i) for i in pc.get_zero_crossings_array_indices(arg, keep_adj_zeros=[True, np.bool_(True), 1][int(rng.integers(3))])],
                "sw": [int(i) for i in sw0],
-               "zcf_tol": [int(i) for i in pc.get_zero_crossings_array_indices(arg, keep_adj_zeros=False, tol=tol)],
+               "zcf_tol": [int(i) for i in pc.get_zero_crossings_array_indices(arg, keep_adj_zeros=[False, np.bool_(False), 0][int(rng.integers(3))], tol=tol)],
                "zct_tol": [int(i) for i in pc.get_zero_crossings_array_indices(arg, keep_adj_zeros=True, tol=tol)],
                "sw_tol": [int(i) for i in pc.get_switched_peak_array_indices(arg, tol=tol)]}
         recs.append(rec)
